@@ -309,6 +309,10 @@ def key_of(chain, kind, par=False):
         for i, c in enumerate(chain):
             if c["op"] == "sort" and c["lim"] and any(d["op"] in ("sort", "stats", "top", "rare") for d in chain[i + 1:]):
                 return "C06:parallel:sort-limit-merge-order-clobbered:wrong-result"
+    if par >= 3 and kind in ("chunking-dependent", "semantics", "e2e-result") and any(c["op"] == "stats" and not c["by"] for c in chain):
+        # >= 3 chains, `stats` without by-clause: the merger keeps only the last partial result when the first one to
+        # arrive came from a chain without input (docs/patches/fix-C06-parallel-stats-merge-drops-partial-results)
+        return "C06:parallel:stats-without-by-merge-of-3plus-chains:partial-results-lost"
     if kind == "e2e-result" and chain[0]["op"] == "stats" and chain[0]["by"] and chain[0]["fn"] == "sum" and chain[0]["f"] == "b":
         # the first aggregation is computed by the searcher's group-by path, not by the pipeline (C03/C04 territory)
         return "C06:e2e:searcher-groupby-sum-with-missing-field:layout-dependent"
@@ -571,7 +575,15 @@ def par_cases_of_line(li, b, rnd, max_per_line):
                 p += n
             streams.append(bs)
         cases.append({"id": "%d/p%d" % (li, ai), "spl": spl, "cols": COLS, "rows": rows, "streams": streams,
-                      "eof_last": bool(rnd.getrandbits(1)), "par": 2, "_sizes": [[len(x) for x in st] for st in streams]})
+                      "eof_last": bool(rnd.getrandbits(1)), "par": 2, "_sizes": streams})
+        if ai == 0:
+            # more chains than streams with data (more CPUs than blocks): the same split over FOUR chains, two of which get
+            # no batch at all or one empty batch, at seeded positions.  Which partial result reaches the merger first is up
+            # to the scheduler; the oracle does not depend on it (SplitInvariant: any split, empty parts included).
+            four = [rnd.choice([[], [[]]]), rnd.choice([[], [[]]])] + [list(st) for st in streams]
+            rnd.shuffle(four)
+            cases.append({"id": "%d/q%d" % (li, ai), "spl": spl, "cols": COLS, "rows": rows, "streams": four,
+                          "eof_last": bool(rnd.getrandbits(1)), "par": 4, "_sizes": four})
     return cases
 
 
@@ -622,9 +634,10 @@ def fn_level(chk, binary, sc, lines, quick, rnd):
         by_line.setdefault(li, []).append((sz, e, res.get(cid, {"skipped": True})))
     # the model's ParSplittable must agree with the real CanParallelSearch/SetupQueryParallelism
     # (a non-mergeable bottleneck in first position - top/rare - gives empty clones: one live chain)
-    notsplit = [cid for cid in parids if res.get(cid, {}).get("nchains") not in (None, 2) and not res.get(cid, {}).get("err", "").startswith("build")
+    notsplit = [cid for cid in parids if res.get(cid, {}).get("nchains") not in (None, len(meta[cid][1])) and not res.get(cid, {}).get("err", "").startswith("build")
                 and lines[meta[cid][0]]["chain"][0]["op"] not in ("top", "rare")]
-    chk.cov["fn_parallel"] = {"two_stream_runs": len(parids), "real_chain_count_not_2": len(notsplit)}
+    chk.cov["fn_parallel"] = {"two_stream_runs": len([c for c in parids if len(meta[c][1]) == 2]),
+                              "four_chain_runs": len([c for c in parids if len(meta[c][1]) == 4]), "real_chain_count_differs": len(notsplit)}
     if notsplit:
         li = meta[notsplit[0]][0]
         raise vlib.Infra("SPEC-DRIFT: spec says `%s` is cloned per upstream stream (ParSplittable), the real SetupQueryParallelism built %s chain(s)" % (
@@ -674,13 +687,15 @@ def fn_level(chk, binary, sc, lines, quick, rnd):
         if kind == "hang":
             n_infra += 1
             continue
-        key = key_of(chain, kind, par=bool(sz) and isinstance(sz[0], list))
+        key = key_of(chain, kind, par=len(sz) if sz and isinstance(sz[0], list) else 0)
         if key in reported:
             reported[key] += 1
             continue
         reported[key] = 1
-        what = ("`%s` over rows %s delivered in batches of %s%s: real DataProcessor chain returned %s%s; admissible: %s" % (
-            spl_of(chain), [concrete_row(x) for x in b["table"]], sz, " (last batch with io.EOF)" if e else "",
+        par = len(sz) if sz and isinstance(sz[0], list) else 0
+        what = ("`%s` over rows %s delivered %s%s%s: real DataProcessor chain returned %s%s; admissible: %s" % (
+            spl_of(chain), [concrete_row(x) for x in b["table"]],
+            ("to %d parallel chains, row numbers per chain and batch " % par) if par else "in batches of ", sz, " (last batch with io.EOF)" if e else "",
             json.dumps(got) if got is not None else st, (" [" + detail[:300] + "]") if detail else "",
             json.dumps(expect[:3])))
         chk.violation(key, what, {"kind": "fn", "spl": spl_of(chain), "cols": COLS,
@@ -990,7 +1005,7 @@ def e2e_level(chk, lines, quick, rnd):
         ok = got is not None and got in expect
         if not ok:
             kind = "error" if got is None else ("empty" if got == [] else "result")
-            key = key_of(chain, "e2e-" + kind, par=c["gomaxprocs"] > 1)
+            key = key_of(chain, "e2e-" + kind, par=c["gomaxprocs"] if c["gomaxprocs"] > 1 else 0)
             if key in reported:
                 continue
             reported.add(key)
@@ -1082,15 +1097,25 @@ def replay(chk, path):
             variants = []
             n = len(rows)
             variants.append(("single batch", [list(range(n))] if n else []))
-            if "sizes" in rp:
+            streams_of = {}
+            if rp.get("sizes") and isinstance(rp["sizes"][0], list):
+                # parallel chains: "sizes" holds the row numbers per chain and batch
+                variants.append(("%d parallel chains" % len(rp["sizes"]), None))
+                streams_of[variants[-1][0]] = rp["sizes"]
+            elif "sizes" in rp:
                 bs, i = [], 0
                 for k in rp["sizes"]:
                     bs.append(list(range(i, i + k)))
                     i += k
                 variants.append(("batches of %s" % rp["sizes"], bs))
             variants.append(("one row per batch", [[i] for i in range(n)]))
-            cases = [{"id": nm, "spl": rp["spl"], "cols": COLS, "rows": rows, "streams": [bs],
-                      "eof_last": bool(rp.get("eof_last")), "par": 1} for nm, bs in variants]
+            cases = [{"id": nm, "spl": rp["spl"], "cols": COLS, "rows": rows, "streams": streams_of.get(nm, [bs]),
+                      "eof_last": bool(rp.get("eof_last")), "par": len(streams_of.get(nm, [bs]))} for nm, bs in variants]
+            # the arrival order of partial results at the merger is up to the scheduler: run the parallel variant several times
+            for nm in list(streams_of):
+                for k in range(2, 9):
+                    variants.append(("%s (run %d)" % (nm, k), None))
+                    cases.append(dict(cases[[c["id"] for c in cases].index(nm)], id=variants[-1][0]))
             res = run_cases(binary, sc, cases, shards=1)
             for nm, _ in variants:
                 r = res.get(nm, {})
